@@ -118,6 +118,10 @@ func Load(o LoadOpts) (*World, error) {
 			ov, subs = w.devirtualizeSeams(o.Overlay)
 			kind := "function variable that only ever holds its initial function is called directly: "
 			if len(subs) == 0 {
+				ov, subs = w.inlineBracketHelpers(o.Overlay)
+				kind = "a helper that runs its function argument between an acquire and a deferred release is written out in "
+			}
+			if len(subs) == 0 {
 				ov, subs = w.splitIfInits(o.Overlay)
 				kind = "the initialiser of an if that calls an unknown helper is written as a statement of its own in "
 			}
